@@ -353,6 +353,14 @@ def contains(eng, container, x, line):
             return bm.or_(*[eng.eq(x, k) for k, _ in container.items])
         if container.kind == "grid":
             return grid_member(eng, container, x)
+        if container.kind == "bands":
+            x = eng.deref(x, "TypeError")
+            xt = zreal(x.t)
+            alts = [xt == zreal(container.last)]
+            for lo, hi, st in container.bands:
+                k = bvar("bk")
+                alts.append(z3.And(zreal(lo) <= xt, xt < zreal(hi), z3.Exists([k], z3.And(k >= 0, xt == zreal(lo) + z3.ToReal(k) * zreal(st)))))
+            return z3.Or(*alts)
         if container.kind == "charset":
             return charset_member(eng, container, x)
         raise EngineLimit("membership in %s" % container)
